@@ -44,10 +44,13 @@ var extra = []lww.Batch{
 var ids = []string{"a", "b", "c", "d", "zz"}
 var keys = []string{"seq"}
 
-func modelAfter(q int, withExtra int) *lww.Model {
+func modelAfter(wl []lww.Batch, q int, withExtra int) *lww.Model {
+	if wl == nil {
+		wl = workload
+	}
 	m := lww.New()
-	for j := 0; j < q && j < len(workload); j++ {
-		m.Apply(workload[j])
+	for j := 0; j < q && j < len(wl); j++ {
+		m.Apply(wl[j])
 	}
 	for j := 0; j < withExtra; j++ {
 		m.Apply(extra[j])
@@ -56,6 +59,7 @@ func modelAfter(q int, withExtra int) *lww.Model {
 }
 
 type cfg struct {
+	wl      []lww.Batch // workload (default: workload)
 	name    string
 	conf    map[string]interface{}
 	unsafe  bool
@@ -173,6 +177,117 @@ func body(k cfg) func(c *drv.Ctx) {
 	}
 }
 
+// ---- in-memory merge window: the persister is parked (public event callback) after the creation
+// round so that two unsafe batches pile up unpersisted; it is released together with a low-priority
+// client thread issuing a delete-only batch (no analysis: a handful of scheduling steps), so that
+// one deviation inside the persister's merge-and-flush window lands that batch between "persister
+// took its snapshot" and "merged segment introduced / equivalent snapshot persisted".
+
+type persisterGate struct {
+	armed   bool
+	parked  chan int
+	release chan int
+}
+
+var pgate *persisterGate
+
+func init() {
+	scorch.RegistryEventCallbacks["verif-c03-persister-gate"] = func(e scorch.Event) bool {
+		if g := pgate; g != nil && g.armed && e.Kind == scorch.EventKindPersisterProgress {
+			g.armed = false
+			vrt.Send(g.parked, 1)
+			vrt.Recv(g.release)
+		}
+		return true
+	}
+}
+
+var windowWorkload = []lww.Batch{
+	{I("a", 1), I("b", 1), S(1)},
+	{I("c", 1), I("d", 1), S(2)},
+	{D("a"), D("c"), S(3)}, // delete-only: obsoletes one document of each unpersisted segment
+	{I("a", 2), S(4)},
+}
+
+func bodyWindow(k cfg) func(c *drv.Ctx) {
+	return func(c *drv.Ctx) {
+		ed := &execData{k: k}
+		c.Data = ed
+		dir := c.Dir + "/idx"
+		acked, submitted := 0, 0
+		capture := false
+		seen := map[string]bool{}
+		vrt.Hook = func(label string) {
+			if !capture || !strings.HasPrefix(label, "fs:") {
+				return
+			}
+			img := drv.CaptureDir(dir, label)
+			key := img.Hash + fmt.Sprint(acked, submitted)
+			if seen[key] {
+				return
+			}
+			seen[key] = true
+			img.Tag["acked"], img.Tag["submitted"] = acked, submitted
+			ed.images = append(ed.images, img)
+		}
+		defer func() { vrt.Hook = nil }()
+		g := &persisterGate{armed: true, parked: make(chan int, 1), release: make(chan int, 1)}
+		pgate = g
+		defer func() { pgate = nil }()
+		var idx bleve.Index
+		cf := bx.CopyConfig(k.conf)
+		cf["eventCallbackName"] = "verif-c03-persister-gate"
+		vrt.Free(func() {
+			var err error
+			idx, err = bleve.NewUsing(dir, bleve.NewIndexMapping(), scorch.Name, scorch.Name, cf)
+			if err != nil {
+				panic(err)
+			}
+		})
+		vrt.Recv(g.parked) // the creation round is persisted; the persister is parked
+		do := func(j int) {
+			b := idx.NewBatch()
+			if err := lww.Fill(b, windowWorkload[j-1]); err != nil {
+				panic(err)
+			}
+			b.SetPersistedCallback(func(err error) {
+				if err == nil && j > acked {
+					acked = j
+				}
+			})
+			submitted = j
+			if err := idx.Batch(b); err != nil {
+				c.Fail("error:batch", "Batch %d: %v", j, err)
+			}
+		}
+		capture = true
+		do(1)
+		do(2) // two unpersisted segments pile up
+		start := make(chan int, 1)
+		var wg vrt.WaitGroup
+		wg.Add(1)
+		vrt.Go(func() { // created last: lowest priority in the default schedule
+			defer wg.Done()
+			vrt.Recv(start)
+			do(3)
+		})
+		vrt.Send(start, 1)
+		vrt.Send(g.release, 1)
+		wg.Wait()
+		vrt.WaitIdle()
+		do(4)
+		vrt.WaitIdle()
+		vrt.Point("fs:quiescent")
+		capture = false
+		c.Observe(fmt.Sprintf("images=%d", bucket(len(ed.images))))
+		vrt.Free(func() {
+			if err := idx.Close(); err != nil {
+				c.Fail("error:close", "Close: %v", err)
+			}
+		})
+	}
+}
+
 func bucket(n int) int {
 	b := 1
 	for b < n {
@@ -190,7 +305,8 @@ var recN int
 // recoverImage opens the image with the real code in a fresh controlled world and renders the
 // outcome: "q=<n> ok" when the content equals model state S_q on every observation, the index
 // accepts two more batches and survives a clean close + reopen; otherwise a description.
-func recoverImage(im *drv.Image, override map[string][]byte, drop map[string]bool, conf map[string]interface{}, full bool) string {
+func recoverImage(im *drv.Image, override map[string][]byte, drop map[string]bool, k cfg, full bool) string {
+	conf := k.conf
 	recN++
 	dir := fmt.Sprintf("/dev/shm/verif-e3-%d/rec%d", pid(), recN)
 	im.Write(dir, override, drop)
@@ -207,7 +323,7 @@ func recoverImage(im *drv.Image, override map[string][]byte, drop map[string]boo
 		if v != nil {
 			q, _ = strconv.Atoi(string(v))
 		}
-		if bad := modelAfter(q, 0).Check(idx, ids, keys); len(bad) > 0 {
+		if bad := modelAfter(k.wl, q, 0).Check(idx, ids, keys); len(bad) > 0 {
 			res = fmt.Sprintf("q=%d MISMATCH: %s", q, strings.Join(bad, "; "))
 			idx.Close()
 			return
@@ -228,7 +344,7 @@ func recoverImage(im *drv.Image, override map[string][]byte, drop map[string]boo
 				return
 			}
 		}
-		want := modelAfter(q, len(extra))
+		want := modelAfter(k.wl, q, len(extra))
 		if bad := want.Check(idx, ids, keys); len(bad) > 0 {
 			res = fmt.Sprintf("q=%d MISMATCH-AFTER-WRITES: %s", q, strings.Join(bad, "; "))
 			idx.Close()
@@ -268,7 +384,7 @@ func after(c *drv.Ctx) {
 			// every (crash point, number of zap files, scenario) class; every image is opened and compared
 			fk := fmt.Sprintf("%s|%s|%d", k.name, im.Label, len(im.ZapFiles()))
 			full := !fullDone[fk]
-			res = recoverImage(im, nil, nil, k.conf, full)
+			res = recoverImage(im, nil, nil, k, full)
 			if full && strings.HasSuffix(res, " ok") {
 				fullDone[fk] = true
 				c.Count("images_with_write_close_reopen_continuation", 1)
@@ -291,7 +407,7 @@ func after(c *drv.Ctx) {
 				dk := im.KeyWithout(dmg.touched) + "|" + dmg.key
 				dres, hit := dmgCache[dk]
 				if !hit {
-					dres = recoverImage(im, dmg.override, dmg.drop, k.conf, false)
+					dres = recoverImage(im, dmg.override, dmg.drop, k, false)
 					dmgCache[dk] = dres
 					c.Count("damaged_variants_distinct", 1)
 				}
@@ -434,6 +550,7 @@ func Scenarios() []drv.Scenario {
 		mk(cfg{name: "safe-default-3", nBatch: 3, window: "workload"}, d1r, nil),
 		mk(cfg{name: "safe-aggressive-merge-3", conf: aggressive, nBatch: 3, window: "workload"}, d1r, nil),
 		mk(cfg{name: "unsafe-2-persister-workers-3", conf: unsafe2, unsafe: true, nBatch: 3, window: "workload"}, d1r, nil),
+		{Name: "unsafe-inmemory-merge-window", Body: bodyWindow(cfg{name: "unsafe-inmemory-merge-window", conf: unsafe2, unsafe: true, wl: windowWorkload}), After: after, Quick: d1r, Thorough: d2r, Class: "unsafe"},
 		mk(cfg{name: "safe-default", nBatch: 5, window: "workload"}, d0, d2r),
 		mk(cfg{name: "safe-aggressive-merge", conf: aggressive, nBatch: 5, window: "workload"}, d0, d2r),
 		mk(cfg{name: "unsafe-2-persister-workers", conf: unsafe2, unsafe: true, nBatch: 5, window: "workload"}, d0, d2r),
